@@ -72,3 +72,11 @@ package gi
 //@   property C19
 //@   on-call DefMethodList own-methods-of-this-flavor: !$arg2 && $arg1 == daemon
 //@   full-loop rangeindex
+
+// C17: range on a channel hands every value it receives to the function, nil items included: the loop runs
+// on the ok flag of the receive and is left only through that test - when the channel is closed and drained -
+// never because of what a received value is. (That each received value is handed to the function is read off the
+// one-statement body, not proved: the receive is havoc in the engine.)
+//@ func gi.(Channel).Range
+//@   property C17
+//@   full-loop <-obj#1
